@@ -46,11 +46,11 @@ theorem foldLines_append (lg jr : Bool) (ks : List Str) (a b : List Line) : ∀ 
     | some s' => exact ih s'
 
 /-- the line the repaired exporter writes for a node -/
-def nodeLine1 (n : NodeS) : Line := .node n.id n.labels (encKV false (exportProps n.row n.col))
+def nodeLine1 (n : NodeS) : Line := .node n.id n.labels (encKV false (exportProps false n.row n.col))
 
 /-- the node the importer creates for it under store id `k` -/
 def newNode (k : Nat) (n : NodeS) : NodeS :=
-  let p := decKV false (encKV false (exportProps n.row n.col))
+  let p := decKV false (encKV false (exportProps false n.row n.col))
   { id := k, labels := n.labels, col := nonNull p, row := p.filter (fun kv => !kv.2.isScalar) }
 
 def impNodesFrom (k : Nat) : List NodeS → List NodeS
@@ -85,9 +85,9 @@ theorem foldLines_nodes (ns : List NodeS) : ∀ (s : Imp),
     intro s
     simp only [List.map_cons, foldLines, nodeLine1, stepLine, findExisting]
     obtain ⟨s', h1, h2, h3, h4, h5, h6, h7, h8, h9, h10, h11⟩ := ih
-      { s with st := (createNode false n.labels (decKV false (encKV false (exportProps n.row n.col))) s.st).1,
+      { s with st := (createNode false n.labels (decKV false (encKV false (exportProps false n.row n.col))) s.st).1,
                created := s.st.nextNode :: s.created,
-               dedup := registerDedup s.dedup n.labels (encKV false (exportProps n.row n.col)) s.st.nextNode [],
+               dedup := registerDedup s.dedup n.labels (encKV false (exportProps false n.row n.col)) s.st.nextNode [],
                remap := (n.id, s.st.nextNode) :: s.remap, nNodes := s.nNodes + 1 }
     refine ⟨s', ?_, ?_, ?_, ?_, ?_, ?_, ?_, ?_, ?_, ?_, ?_⟩
     · simpa [nodeLine1, createNode] using h1
@@ -230,24 +230,10 @@ theorem lookup_mem {α : Type} {k : Str} {v : α} {l : List (Str × α)} (h : lo
 structure NodeWF (n : NodeS) : Prop where
   rowOk : ∀ kv ∈ n.row, snapOk kv.2 = true ∧ kv.2.isNull = false
   colOk : ∀ kv ∈ n.col, snapOk kv.2 = true
-  /-- where both the row and the column hold a key they agree (what `set_node_property`
-  maintains) -/
-  consistent : ∀ kv ∈ n.col, kv.2.isNull = false → ∀ v, lookup kv.1 n.row = some v → v = kv.2
 
-theorem exportProps_eq_mergedView {n : NodeS} (h : NodeWF n) :
-    exportProps n.row n.col = mergedView n := by
-  unfold exportProps mergedView
-  congr 1
-  have : ∀ kv ∈ nonNull n.col,
-      (fun kv : Str × PV => (kv.1, (lookup kv.1 n.row).getD kv.2)) kv = id kv := by
-    intro kv hkv
-    have hnn := nonNull_noNull n.col kv hkv
-    have hmem : kv ∈ n.col := (List.mem_filter.mp hkv).1
-    cases hl : lookup kv.1 n.row with
-    | none => simp [hl]
-    | some v => simp [hl, h.consistent kv hmem hnn v hl]
-  rw [List.map_congr_left this, List.map_id]
-
+theorem exportProps_eq_mergedView {n : NodeS} (_h : NodeWF n) :
+    exportProps false n.row n.col = mergedView n := by
+  simp [exportProps, mergedView]
 
 theorem mergedView_ok {n : NodeS} (h : NodeWF n) :
     snapOkKV (mergedView n) = true ∧ ∀ kv ∈ mergedView n, kv.2.isNull = false := by
@@ -267,7 +253,7 @@ theorem mergedView_ok {n : NodeS} (h : NodeWF n) :
 theorem mergedView_newNode (k : Nat) {n : NodeS} (h : NodeWF n) :
     mergedView (newNode k n) = mergedView n := by
   have hok := mergedView_ok h
-  have hp : decKV false (encKV false (exportProps n.row n.col)) = mergedView n := by
+  have hp : decKV false (encKV false (exportProps false n.row n.col)) = mergedView n := by
     rw [exportProps_eq_mergedView h, decKV_encKV _ hok.1]
   unfold newNode
   simp only [hp]
